@@ -9,7 +9,12 @@ Oracle (on the real code's output, independent of the model of dvb_mux.c):
     PTS, data_identifier, continuity
   * the same bytes fed to the library's demultiplexer (harness --demux) must come back as the
     frames that were sent (frames split where the line number does not increase)
-  * raw-line multiplexing (harness --raw): no crash, atomic rejection, usable afterwards
+  * raw lines (ops feedraw / feedraw2 / mraw, in the correspondence stream since round 3): acceptance judged from
+    the API contract, every accepted frame's bytes read by the Lean spec `RawSpec.parsePesR` (op `enparser`):
+    well-formed monochrome data units (EN 301 775 4.9), segments contiguous, reassembled lines = the input
+    samples on the right line / pixel position; atomic rejection, multiplexer usable afterwards
+  * a crash of the real code must be predicted by the model (`rej model:assert...` at the same op): this is
+    what ties Generated/MuxFlags.lean (source shape read by translate/gen_muxflags.py) to the tree under test
 """
 import os, re, subprocess, sys
 sys.path.insert(0, os.path.join(os.path.dirname(os.path.abspath(__file__)), "..", "lib"))
@@ -155,25 +160,28 @@ class MuxSim:
 class C06(verif.Spec):
     prop = "C06"
     comp = "mux"
-    lean_modules = ["ZvbiModel.Props.C06", "ZvbiModel.Props.C06Join"]
+    lean_modules = ["ZvbiModel.Props.C06", "ZvbiModel.Props.C06Join", "ZvbiModel.Props.C06Raw"]
     harness = "mux_harness"
     harness_link_lib = True
     timeout_per_case = 5.0
-    partial_note = ("theorems cover sliced services through vbi_dvb_mux_feed (PES and TS), vbi_dvb_mux_cor (proved equal to feed "
-                    "for all buffer size sequences, PES and TS, whole histories) and vbi_dvb_multiplex_sliced; the round trip "
-                    "through C07's model of the library demultiplexer is proved for the PES path, every feed partition, frames of "
-                    "defined lines (Props/C06Join.lean); raw (monochrome sample) data units are checked by the oracle only; "
-                    "lines with the undefined line number 0 and the TS path of the demultiplexer are judged by the --demux oracle")
+    partial_note = ("theorems cover sliced services and raw (monochrome samples) lines through vbi_dvb_mux_feed (PES and TS), both source "
+                    "shapes of generate_pes_packet (flag read from the source by translate/gen_muxflags.py); vbi_dvb_mux_cor (proved equal "
+                    "to feed for all buffer size sequences, raw == NULL) and vbi_dvb_multiplex_sliced; the round trip through C07's model "
+                    "of the library demultiplexer is proved for the PES path, every feed partition, frames of defined sliced lines "
+                    "(Props/C06Join.lean); lines with the undefined line number 0 and the TS path of the demultiplexer are judged by the "
+                    "--demux oracle; vbi_dvb_multiplex_raw and vbi_dvb_mux_cor with raw lines by correspondence / oracle")
     open_statements = [
-        "mux_accepts_all_permitted_full: every frame of permitted lines in ascending order that fits max_packet_size is accepted (oracle: 'permitted frame rejected')",
         "mux_demux_roundtrip_undef_full (Props/C06Join.lean): the library round trip for frames that also carry lines with the undefined line number 0 (frame boundaries then depend on the field parity bit, which EnParse does not record); proved without such lines as mux_demux_roundtrip_lib; judged on the real code by the --demux oracle",
-        "mux_demux_roundtrip_ts_full: the round trip through the TS path of the demultiplexer (_vbi_dvb_ts_demux_new; first frame lost when its PES packet is one TS packet, F30) - oracle only",
-        "mux_noraw_hypothesis: mux_wellformed / mux_carries_input / round trips / cor_equals_feed assume frames without VBI_SLICED_VBI_625 lines; frames with masked-out raw lines are covered by correspondence only",
-        "mux_raw_wellformed_full: raw (monochrome sample) data units - oracle only; FALSE on the current code (known findings C06-D1, C06-D2)"]
+        "mux_demux_roundtrip_ts_full: the round trip through the TS path of the demultiplexer (_vbi_dvb_ts_demux_new; F30 - first frame lost when its PES packet is one TS packet - is fixed in /repo since 9cc9384) - oracle only",
+        "cor_equals_feed_raw_full: vbi_dvb_mux_cor with raw / sp (cor_equals_feed is proved for raw == NULL); vbi_dvb_multiplex_raw as a theorem (op mraw: correspondence + oracle)",
+        "mux_current_shape_F29: on the unchanged tree mux_never_aborts fails (f29_counterexample); all other raw theorems hold for both shapes"]
     assumptions = ["callers pass vbi_sliced arrays of the stated length; callback is non-NULL",
-                   "frames handed to one multiplexer hold no VBI_SLICED_VBI_625 lines in the theorems (raw == NULL)"]
-    trusted_base = ["harness/mux_harness.c + lean/Driver/Mux.lean (correspondence of feed/cor/multiplex_sliced/encode_stuffing)",
-                    "Mux/Spec.lean EnParse: my transcription of EN 300 472 / EN 301 775 / ISO 13818-1",
+                   "the raw frame holds the sp->count[0] + sp->count[1] lines of bytes_per_line bytes the caller declares (RawHolds)",
+                   "sampling parameters: scanning 625, YUV420, 13.5 MHz, synchronous (the only values valid_sampling_par admits; the "
+                   "harness fixes them), offset / bytes_per_line / start / count / interlaced free"]
+    trusted_base = ["harness/mux_harness.c + lean/Driver/Mux.lean (correspondence of feed/feedraw/cor/multiplex_sliced/multiplex_raw/encode_stuffing)",
+                    "Mux/Spec.lean EnParse and Mux/RawSpec.lean: my transcription of EN 300 472 / EN 301 775 (4.9 for raw units) / ISO 13818-1",
+                    "translate/gen_muxflags.py -> Generated/MuxFlags.lean (source shape of generate_pes_packet; a stale flag shows as an unpredicted crash or a correspondence disagreement)",
                     "constants of sliced.h/dvb.h compared op `consts` on every run"]
 
     # ------------------------------------------------------------------ generators
@@ -182,12 +190,97 @@ class C06(verif.Spec):
         cases = [["consts"]]
         for i in range(N):
             k = rng.random()
-            if k < 0.40: cases.append(self.case_clean(rng))
-            elif k < 0.72: cases.append(self.case_mixed(rng))
-            elif k < 0.84: cases.append(self.case_msliced(rng))
-            elif k < 0.92: cases.append(self.case_stuff(rng))
+            if k < 0.34: cases.append(self.case_clean(rng))
+            elif k < 0.60: cases.append(self.case_mixed(rng))
+            elif k < 0.70: cases.append(self.case_msliced(rng))
+            elif k < 0.76: cases.append(self.case_stuff(rng))
+            elif k < 0.88: cases.append(self.case_raw(rng))
+            elif k < 0.94: cases.append(self.case_mraw(rng))
             else: cases.append(self.case_malformed(rng))
         return cases
+
+    # raw line lengths that make the data end near a packet boundary / a full data unit
+    SPLS = (720, 720, 1, 2, 40, 41, 80, 131, 125, 126, 137, 250, 251, 252, 257, 309, 315, 500, 502, 503, 100, 719)
+
+    def raw_frame_lines(self, rng, f, nraw):
+        used = {l for _, l, _ in f}
+        for _ in range(nraw):
+            free = [x for x in list(range(7, 24)) + list(range(320, 337)) if x not in used]
+            if not free: break
+            ln = rng.choice(free); used.add(ln)
+            f.append((VBI625, ln, []))
+        zero = [x for x in f if x[1] == 0]
+        f = sorted([x for x in f if x[1]], key=lambda x: x[1])
+        for z in zero: f.insert(rng.randrange(len(f) + 1), z)
+        return f
+
+    def case_raw(self, rng):
+        """frames mixing sliced and raw lines through vbi_dvb_mux_feed with raw / sp"""
+        c = [self.new_line(rng)]
+        c.append("dataid %d" % rng.choice([0x10, 0x15, 0x99, 0x99, 0x9B, 0x99]))
+        if rng.random() < 0.8:
+            c.append("size %d %d" % (rng.choice([0, 0, 184, 368, 1104]), rng.choice([184, 368, 552, 736, 920, 1104, 1472, 1656, 2024, 65504])))
+        for _ in range(rng.randrange(1, 5)):
+            f = gen_frame(rng, dense=rng.choice([0.0, 0.05, 0.1, 0.3]))
+            if rng.random() < 0.15: f.insert(rng.randrange(len(f) + 1), (rng.choice(TTX_IDS), 0, payload(rng, 42)))
+            spl = rng.choice(self.SPLS) if rng.random() < 0.8 else rng.randrange(1, 721)
+            off = 132 + (rng.randrange(0, 721 - spl) if rng.random() < 0.5 else 0)
+            s0, c0, s1, c1 = 7, 17, 320, 17
+            k = rng.random()
+            if k < 0.08: s0, c0 = rng.choice([(9, 15), (7, 5), (0, 17), (1, 23)])
+            elif k < 0.16: s1, c1 = rng.choice([(322, 15), (320, 3), (0, 17), (312, 25)])
+            elif k < 0.20: off, spl = rng.choice([(131, 100), (132, 721), (800, 100), (132, 0), (852, 1), (0, 10)])
+            elif k < 0.23: c0, c1 = rng.choice([(0, 0), (0, 17), (17, 0), (400, 17)])[0:2]
+            f = self.raw_frame_lines(rng, f, rng.choice([1, 1, 1, 2, 2, 3, 0]))
+            if rng.random() < 0.12: f = spoil(rng, f)
+            mask = ALL if rng.random() < 0.85 else rng.choice([ALL & ~VBI625, VBI625, 3 | VBI625, 0x400 | VBI625, 3])
+            il = 1 if rng.random() < 0.15 else 0
+            if il and rng.random() < 0.7: c1 = c0
+            rnull = 1 if rng.random() < 0.04 else 0
+            if il or rnull or rng.random() < 0.2:
+                c.append("feedraw2 %d 0x%x %d %d %d %d %d %d %d %d %d %s" % (rng.randrange(2**33), mask, off, spl, s0, c0, s1, c1,
+                                                                          rng.randrange(256), il, rnull, fmt_lines(f)))
+            else:
+                c.append("feedraw %d 0x%x %d %d %d %d %d %d %d %s" % (rng.randrange(2**33), mask, off, spl, s0, c0, s1, c1,
+                                                                   rng.randrange(256), fmt_lines(f)))
+            # a plain sliced frame afterwards: the multiplexer must still be usable
+            c.append("feed %d 0xffffffff 0 %s" % (rng.randrange(2**33), fmt_lines([(3, 7, payload(rng, 42))])))
+        c.append("state")
+        return c
+
+    def case_mraw(self, rng):
+        """vbi_dvb_multiplex_raw: every buffer size / line length / offset, both formats, 625 and 525, error paths"""
+        c = []
+        for _ in range(rng.randrange(3, 10)):
+            did = rng.choice([0x10, 0x1F, 0x99, 0x99, 0x9B, 0, 0x20, rng.randrange(256)])
+            fixed = (did >> 4) == 1
+            ntot = rng.choice(self.SPLS) if rng.random() < 0.8 else rng.randrange(1, 721)
+            fpp = rng.randrange(0, 721 - ntot) if rng.random() < 0.6 else 0
+            rl = ntot if rng.random() < 0.7 else rng.randrange(0, ntot + 1)
+            vs = rng.choice([1, 1, 1, 2, 2, 3, 0])
+            f2 = 263 if vs == 2 else 313
+            line = rng.choice(list(range(7, 24)) + [f2 + x for x in range(7, 24)]) if rng.random() < 0.85 else \
+                rng.choice([0, 6, 24, f2 + 6, f2 + 24, 312, 313, 262, 263, 2**32 - 1, 1000])
+            k = rng.random()
+            if k < 0.06: fpp, ntot = rng.choice([(0, 721), (1, 720), (2**32 - 1, 2), (700, 30), (2**32 - 100, 200)]); rl = min(rl, 2000, ntot)
+            elif k < 0.10: rl = min(2000, ntot + rng.randrange(1, 5))
+            need = (46 * ((rl + 39) // 40)) if fixed else rl + 6 * ((rl + 250) // 251)
+            k = rng.random()
+            if fixed and k < 0.8: left = 46 * rng.randrange(0, 25)
+            elif k < 0.45: left = need + rng.choice([0, 1, 2, 3, 5, 6, 7, 8, 256, 257, 258, 259, 600])
+            elif k < 0.65: left = max(0, need - rng.randrange(1, 300))
+            elif k < 0.85: left = rng.choice([257, 258, 259, 263, 264, 265, 514, 515, 516, 517, 520, 521, 522])
+            else: left = rng.choice([0, 1, 2, 6, 7, 8, 13, 45, 46, 47, rng.randrange(3000)])
+            stf = rng.randrange(2)
+            if rng.random() < 0.15:
+                # exactly 2 + 4 + 251 + 1 bytes left when a full unit could follow: the unit must be one sample shorter
+                did = rng.choice([0x99, 0x9B, 0x20]); ntot = rng.choice([251, 252, 300, 502, 503, 600, 720]); rl, fpp = ntot, 0
+                left = 257 * rng.randrange(0, (rl - 251) // 251 + 1) + 258
+                stf = 1 if rng.random() < 0.8 else 0
+                if vs in (0, 3): vs = 1
+                line = 7 + rng.randrange(17)
+            c.append("mraw %d %d %d %d %d %d %d %d %d" % (left, did, vs, line, fpp, ntot, stf, rl, rng.randrange(256)))
+        return c
 
     def new_line(self, rng):
         if rng.random() < 0.5: return "new pes"
@@ -298,7 +391,9 @@ class C06(verif.Spec):
                 "cor 1 1 0 0", "cor 1 1 1,2 0", "corall 1 1 , 0", "corall 1 1 1,x 0", "dataid", "dataid x", "size 1", "size a b",
                 "new", "new ts", "new ts x", "new pes 1", "new foo", "stuff 1 2 3", "stuff 1 2 2 -", "msliced 1 2 3", "bogus 1 2",
                 "reset 1", "state 1", "feed 1 1 0 1 3 7 " + "00" * 57, "feed 1 1 0 1001", "msliced 70001 1 16 1 0",
-                "feedraw 1 2 3", "stuff 1 300 0 -", "enparse"]
+                "feedraw 1 2 3", "stuff 1 300 0 -", "enparse", "mraw 1 2 3", "mraw 100 153 1 7 0 720 1 720 x", "mraw 70001 153 1 7 0 720 1 720 0",
+                "feedraw2 1 1 132 720 7 17 320 17 0 2 0 0", "feedraw 1 1 132 5000 7 17 320 17 0 0", "feedraw 1 1 132 720 7 65 320 17 0 0",
+                "feedraw 1 0xffffffff 132 720 7 17 320 17 0 1 0x20000000 7", "enparser"]
         c = []
         if rng.random() < 0.5: c.append(self.new_line(rng))
         if rng.random() < 0.3: c.append("new ts %d" % rng.choice([0, 15, 0x1FFF, 0x2000, 2**32 + 5]))
@@ -308,6 +403,8 @@ class C06(verif.Spec):
 
     def classify(self, case):
         ops = {l.split()[0] for l in case}
+        if "feedraw" in ops or "feedraw2" in ops: return "raw"
+        if "mraw" in ops: return "mraw"
         if "msliced" in ops: return "msliced"
         if "stuff" in ops: return "stuff"
         if "consts" in ops: return "consts"
@@ -347,6 +444,10 @@ class C06(verif.Spec):
                 continue
             if t[0] == "stuff":
                 w = self.judge_stuff(t, r)
+                if w: return w, plan
+                continue
+            if t[0] == "mraw":
+                w = self.judge_mraw(t, r)
                 if w: return w, plan
                 continue
             if sim is None:
@@ -393,6 +494,34 @@ class C06(verif.Spec):
                 plan["packets"].append((i, sim.cc & 15, hexb, pts % 2**33, sim.dataid, size,
                                         [canon(s, l, d) for s, l, d in lines if s & mask]))
                 sim.cc += npk if sim.pid else 0
+            elif t[0] in ("feedraw", "feedraw2"):
+                plan["clean"] = False          # the demultiplexer round trip (frames of sliced lines) is judged on other cases
+                sim.pending = None
+                a = self.raw_args(t)
+                ok, calls, sizes, hexb = r[1] == "true", int(r[2]), r[3], r[4]
+                acc, size, items = self.raw_expect(sim, a)
+                plan.setdefault("raw_seen", []).append(ok)
+                if not ok:
+                    if calls or hexb != "-": return "rejected frame produced output: feedraw", plan
+                    if acc: return "permitted frame rejected: feedraw", plan
+                    continue
+                if acc is False: return "frame outside the contract was accepted: feedraw", plan
+                if acc is None: continue
+                npk = 1 if sim.pid == 0 else size // 184
+                szs = [int(x) for x in sizes.split(",")]
+                want = [size] if sim.pid == 0 else [188] * npk
+                if szs != want: return "packet sizes %s, expected %s: feedraw" % (szs[:4], want[:4]), plan
+                if not (sim.min <= size <= sim.max and size % 184 == 0): return "size outside bounds: feedraw", plan
+                b = bytes.fromhex(hexb)
+                if sim.pid:
+                    for k in range(0, len(b), 188):
+                        h = b[k:k + 4]
+                        if h[0] != 0x47 or ((h[1] & 0x1F) << 8 | h[2]) != sim.pid or (h[1] >> 6 & 1) != (1 if k == 0 else 0) \
+                           or h[3] != 0x10 + ((sim.cc + k // 188) & 15):
+                            return "raw frame: TS packet header", plan
+                    b = b"".join(b[k + 4:k + 188] for k in range(0, len(b), 188))
+                    sim.cc += npk
+                plan.setdefault("rawpackets", []).append((i, hx(b), a["pts"] % 2**33, sim.dataid, size, items))
             elif t[0] in ("cor", "corall"):
                 pts, mask = int(t[1]), int(t[2], 0) & ALL
                 lines = parse_lines_tokens(t[4:])
@@ -424,6 +553,87 @@ class C06(verif.Spec):
         if sim is not None and sim.pending: plan["clean"] = False
         return None, plan
 
+    def raw_args(self, t):
+        two = t[0] == "feedraw2"
+        at = 12 if two else 10
+        return {"pts": int(t[1]), "mask": int(t[2], 0) & ALL, "off": int(t[3]), "spl": int(t[4]), "s0": int(t[5]), "c0": int(t[6]),
+                "s1": int(t[7]), "c1": int(t[8]), "seed": int(t[9]), "il": int(t[10]) if two else 0, "rnull": int(t[11]) if two else 0,
+                "lines": parse_lines_tokens(t[at:])}
+
+    def raw_expect(self, sim, a):
+        """the API contract for a frame with raw line requests -> (accepted True / False / None = unspecified, size, items)"""
+        lines, mask, off, spl, s0, c0, s1, c1 = a["lines"], a["mask"], a["off"], a["spl"], a["s0"], a["c0"], a["s1"], a["c1"]
+        valid = (off >= 132 and off + spl <= 852 and spl > 0 and not (c0 == 0 and c1 == 0)
+                 and (s0 == 0 or (s0 >= 1 and s0 + c0 <= 311)) and (s1 == 0 or (s1 >= 312 and s1 + c1 <= 625))
+                 and not (a["il"] and (c0 != c1 or c0 == 0)))
+        if not valid: return False, 0, None
+        last = 0
+        for sid, ln, _ in lines:
+            if ln > 0:
+                if ln <= last: return False, 0, None
+                last = ln
+        fixed = 0x10 <= sim.dataid <= 0x1F
+        T, items, full_raw_last = 46, [], False
+        for sid, ln, d in lines:
+            if sid & mask == 0: continue
+            if sid == VBI625:
+                if a["rnull"] or ln == 0: return False, 0, None
+                field = 1 if ln >= 313 else 0
+                st, ct = (s1, c1) if field else (s0, c0)
+                if ln < st or ln - st >= ct: return False, 0, None
+                if not 7 <= (ln - 313 if field else ln) <= 23: return False, 0, None
+                row = ln - st
+                row = row * 2 + field if a["il"] else (row + c0 if field else row)
+                items.append(("R", ln, off - 132, [(a["seed"] + 7 * (row * spl + k)) & 255 for k in range(spl)]))
+                T += 46 * ((spl + 39) // 40) if fixed else spl + 6 * ((spl + 250) // 251)
+                full_raw_last = (not fixed) and spl % 251 == 0
+            else:
+                if not permitted(sid, ln): return False, 0, None
+                T += du_size(sid, fixed); items.append(("L",) + canon(sid, ln, d)); full_raw_last = False
+        if T > sim.max: return False, 0, None
+        # one byte left before max_packet_size after a raw data unit of maximum size cannot be filled: unspecified
+        if T + 1 == sim.max and full_raw_last: return None, 0, None
+        size = max(sim.min, (T + 183) // 184 * 184)
+        if size - T == 1 and full_raw_last: size += 184
+        return True, size, items
+
+    def judge_mraw(self, t, r):
+        left, did, vs, line, fpp, ntot, stf, rl, seed = [int(x) for x in t[1:10]]
+        ok, pleft, rleft, adv, radv = r[1] == "true", int(r[2]), int(r[3]), int(r[4]), int(r[5])
+        buf = bytes.fromhex(r[6]) if r[6] != "-" else b""
+        fixed = (did >> 4) == 1
+        if pleft + adv != left or rleft + radv != rl: return "accounting: multiplex_raw"
+        if any(x != 0xAA for x in buf[adv:]): return "multiplex_raw wrote past the reported position"
+        f2 = 263 if vs == 2 else 313
+        l = line - f2 if line >= f2 else line
+        bad = (left < 2 or (fixed and left % 46) or rl == 0 or vs in (0, 3) or rl > ntot or fpp + ntot > 720 or not 7 <= l <= 23)
+        if bad:
+            if ok or adv or radv: return "multiplex_raw accepted arguments outside the contract"
+            return None
+        if not ok: return "multiplex_raw failed on valid arguments"
+        if stf and pleft != 0: return "stuffing requested but packet_left = %d: multiplex_raw" % pleft
+        us = self.du_walk(buf[:adv])
+        if us is None: return "multiplex_raw output does not parse as data units"
+        done, pos = 0, fpp + ntot - rl
+        for uid, p in us:
+            if fixed and len(p) != 0x2C: return "data_unit_length %d in fixed-length format: multiplex_raw" % len(p)
+            if uid == 0xFF:
+                if any(x != 0xFF for x in p): return "stuffing unit is not all 0xFF: multiplex_raw"
+                if done < radv: return "stuffing between raw data units"
+                continue
+            if uid != 0xC6 or len(p) < 4: return "unexpected data unit id=%#x: multiplex_raw" % uid
+            n = p[3]
+            if n == 0 or len(p) < 4 + n or any(x != 0xFF for x in p[4 + n:]): return "raw data unit: n_pixels / stuffing bytes"
+            if (p[0] >> 7 & 1) != (1 if done == 0 and rl == ntot else 0): return "raw data unit: first_segment_flag"
+            if (p[0] >> 6 & 1) != (1 if done + n == rl else 0): return "raw data unit: last_segment_flag"
+            if (p[0] >> 5 & 1) != (0 if line >= f2 else 1) or (p[0] & 31) != l: return "raw data unit: field_parity / line_offset"
+            if p[1] << 8 | p[2] != pos: return "raw data unit: first_pixel_position %d, expected %d" % (p[1] << 8 | p[2], pos)
+            if list(p[4:4 + n]) != [(seed + 7 * (done + k)) & 255 for k in range(n)]: return "raw data unit: samples differ from the input"
+            done += n; pos += n
+        if done != radv: return "raw data units carry %d samples, %d reported converted" % (done, radv)
+        if radv < rl and not stf and pleft >= (46 if fixed else 7): return "samples left although a data unit would fit: multiplex_raw"
+        return None
+
     def du_walk(self, b):
         """data units of a region (must fill it exactly) -> list of (id, payload) or None"""
         out, i = [], 0
@@ -438,8 +648,8 @@ class C06(verif.Spec):
         buf = bytes.fromhex(r[1]) if r[1] != "-" else b""
         if len(buf) != len(pre) + a: return "encode_stuffing wrote %d bytes for p_left %d" % (len(buf) - len(pre), a)
         one = (not fixed) and a % 257 == 1
-        if one and a == 1 and b >= 257:
-            return None     # outside the documented precondition (last_du_size < 257): behaviour unspecified
+        if one and a == 1 and (b >= 257 or len(pre) < b):
+            return None     # outside the documented precondition (last_du_size < 257, that unit in the buffer): unspecified
         keep = len(pre) if not (one and a == 1) else len(pre) - b
         if buf[:keep] != pre[:keep]: return "encode_stuffing changed bytes before the last data unit"
         region = buf[keep:]
@@ -503,10 +713,14 @@ class C06(verif.Spec):
 
     def signature(self, case, what):
         """shape of the failing input, not its random bytes"""
-        if "last_du_size >= 2" in what and "raw lines" in what:
+        if "last_du_size >= 2" in what and what.startswith("crash"):
             # distinguishing shape: the aborting call is a feed with raw (VBI_625) lines in the frame
-            raw = any(int(t[11 + 3 * k], 0) == VBI625 for t in (l.split() for l in case if l.startswith("feedraw "))
-                      for k in range(int(t[10])))
+            raw = False
+            for l in case:
+                t = l.split()
+                if t and t[0] in ("feedraw", "feedraw2"):
+                    try: raw = raw or any(sid == VBI625 for sid, _, _ in self.raw_args(t)["lines"])
+                    except (ValueError, IndexError): pass
             return "feedraw:assert-last_du_size" if raw else "crash:assert-last_du_size"
         if what.startswith("crash") or what.startswith("hang"):
             return what.split("(")[0].strip() + ":" + what.split("(", 1)[-1][:60]
@@ -587,22 +801,67 @@ class C06(verif.Spec):
                         seen.add(w.split(":")[0]); res.append((w, case))
                 self.extra_coverage["demux_partition_cor_cases"] = len(pes_clean)
                 self.extra_coverage["demux_partition_cor_variants"] = n_var
-        # (c) raw lines (oracle only)
-        raw_cases = [case for case, _ in plans if any(l.startswith("feedraw ") for l in case)]
-        if not any(a == "--replay" for a in sys.argv):
-            raw_cases += self.gen_raw_cases(ctx["rng"], ctx["tier"])
-        outs, inc = verif.run_side([hexe, "--raw", "--demux"], raw_cases, self.timeout_per_case) if raw_cases else ({}, [])
-        for x in inc:
-            res.append(("%s of the real code with raw lines (%s)" % (x["kind"], verif.summarize_san(x["detail"])), raw_cases[x["case"]]))
-        bad = {x["case"] for x in inc}
-        seen = set()
-        for k, case in enumerate(raw_cases):
-            if k in bad: continue
-            w = self.judge_raw(case, outs.get(k, []))
-            if w and w.split(":")[0] not in seen:
-                seen.add(w.split(":")[0]); res.append((w, case))
-        self.extra_coverage["raw_cases"] = len(raw_cases)
+        # (c) raw lines: RawSpec.parsePesR (Lean, independent reader of EN 301 775 4.9) on every accepted frame with raw ops
+        ops, meta = [], []
+        for case, plan in plans:
+            for (i, hexb, pts, did, size, items) in plan.get("rawpackets", []):
+                ops.append("enparser " + hexb); meta.append((case, i, pts, did, size, items))
+        self.extra_coverage["rawspec_packets"] = len(ops)
+        self.extra_coverage["raw_frames_accepted"] = sum(sum(1 for x in plan.get("raw_seen", []) if x) for _, plan in plans)
+        self.extra_coverage["raw_frames_rejected"] = sum(sum(1 for x in plan.get("raw_seen", []) if not x) for _, plan in plans)
+        if ops:
+            p = subprocess.run(ctx["mcmd"], input=("\n".join(ops) + "\n").encode(), stdout=subprocess.PIPE, timeout=900)
+            outs = p.stdout.decode().split("\n")
+            seen = set()
+            for (case, i, pts, did, size, items), o in zip(meta, outs):
+                w = self.judge_enparser(pts, did, size, items, o)
+                if w and w.split(":")[0] not in seen:
+                    seen.add(w.split(":")[0]); res.append((w + " (op %d)" % i, case))
+        # (d) a crash of the real code must be predicted by the model at the same op (ties Generated/MuxFlags.lean,
+        #     i.e. the source shape the translator read, to the tree under test), and the outputs before it must agree
+        n_pred = 0
+        for i, case in enumerate(ctx["cases"]):
+            io, mo = ctx["impl_out"].get(i, []), ctx["model_out"].get(i, [])
+            if len(io) >= len(case) or not mo: continue
+            # (stdout of the aborted process is lost from the last flush on, so `io` may stop before the crashing op)
+            k = len(io)
+            # the last line may be cut where the stdio buffer was flushed last
+            if io[:-1] != mo[:max(0, k - 1)] or (io and not (k <= len(mo) and mo[k - 1].startswith(io[-1]))):
+                res.append(("model and code disagree before a crash of the real code (op %d)" % k, case)); continue
+            if io and io[-1] != mo[k - 1]: k -= 1
+            if not any(x.startswith("rej model:assert") for x in mo[k:]):
+                res.append(("crash of the real code is not predicted by the model: source shape flag stale?", case))
+            else: n_pred += 1
+        self.extra_coverage["crashes_predicted_by_model"] = n_pred
+        # (e) the library's demultiplexer must survive packets with raw data units (it does not decode them)
+        rawc = [case for i, case in enumerate(ctx["cases"]) if any(l.startswith("feedraw") for l in case)
+                and len(ctx["impl_out"].get(i, [])) >= len(case)]
+        if ctx["tier"] == "quick" and len(rawc) > 80: rawc = ctx["rng"].sample(rawc, 80)
+        if rawc:
+            outs, inc = verif.run_side([hexe, "--demux"], rawc, self.timeout_per_case)
+            for x in inc:
+                res.append(("%s of the real code with raw lines in mux -> demux (%s)" % (x["kind"], verif.summarize_san(x["detail"])), rawc[x["case"]]))
+        self.extra_coverage["raw_demux_cases"] = len(rawc)
         return res
+
+    def judge_enparser(self, pts, did, size, items, o):
+        if not o.startswith("ok pkt"):
+            return "RawSpec: emitted bytes are not a well-formed PES packet with raw data units"
+        t = o.split()
+        if int(t[2]) != pts: return "RawSpec: PTS %s, sent %d" % (t[2], pts)
+        if int(t[3]) != did: return "RawSpec: data_identifier %s, configured %d" % (t[3], did)
+        if int(t[4]) != size: return "RawSpec: packet size %s, expected %d" % (t[4], size)
+        n, got, k = int(t[5]), [], 6
+        for _ in range(n):
+            if t[k] == "L":
+                got.append(("L", int(t[k + 1]), int(t[k + 2]), list(bytes.fromhex(t[k + 3])))); k += 4
+            else:
+                got.append(("R", int(t[k + 1]), int(t[k + 2]), list(bytes.fromhex(t[k + 3])) if t[k + 3] != "-" else [])); k += 4
+        if got != items:
+            d = next((j for j, (x, y) in enumerate(zip(got, items)) if x != y), min(len(got), len(items)))
+            return "RawSpec: packet carries other lines / samples than the input: %d vs %d items, first difference at %d: got %s want %s" % (
+                len(got), len(items), d, str(got[d] if d < len(got) else None)[:70], str(items[d] if d < len(items) else None)[:70])
+        return None
 
     def judge_enparse(self, plan, cc, pts, did, size, lines, o):
         if not o.startswith("ok") or "malformed" in o:
@@ -704,53 +963,6 @@ class C06(verif.Spec):
             if a != b:
                 return "demux round trip: frame %d differs: got %s want %s" % (k, str(a)[:120], str(b)[:120]), len(want)
         return None, len(want)
-
-    # ------------------------------------------------------------------ raw lines (oracle only)
-    def gen_raw_cases(self, rng, tier):
-        n = 150 if tier == "quick" else 1500
-        cases = []
-        for _ in range(n):
-            c = [self.new_line(rng)]
-            c.append("dataid %d" % rng.choice([0x10, 0x99, 0x99, 0x9B]))
-            c.append("size %d %d" % (rng.choice([0, 184, 368]), rng.choice([184, 368, 736, 1472, 1656, 65504])))
-            for _ in range(rng.randrange(1, 5)):
-                f = gen_frame(rng, dense=rng.choice([0.05, 0.1, 0.3]))
-                spl = rng.choice([720, 720, 1, 2, 131, 251, 252, 250, 500, 502, 100, rng.randrange(1, 721)])
-                off = 132 + (rng.randrange(0, 721 - spl) if rng.random() < 0.5 else 0)
-                s0, c0, s1, c1 = 7, 17, 320, 17
-                used = {l for _, l, _ in f}
-                for _ in range(rng.randrange(1, 3)):
-                    ln = rng.choice([x for x in list(range(7, 24)) + list(range(320, 337)) if x not in used] or [23])
-                    used.add(ln)
-                    f.append((VBI625, ln, []))
-                f.sort(key=lambda x: x[1])
-                c.append("feedraw %d 0xffffffff %d %d %d %d %d %d %d %s" % (rng.randrange(2**33), off, spl, s0, c0, s1, c1,
-                                                                         rng.randrange(256), fmt_lines(f)))
-                # a plain sliced frame afterwards: the multiplexer must still be usable
-                c.append("feed %d 0xffffffff 0 %s" % (rng.randrange(2**33), fmt_lines([(3, 7, payload(rng, 42))])))
-            cases.append(c)
-        return cases
-
-    def judge_raw(self, case, out):
-        if len(out) != len(case): return "output count (raw)"
-        prev_raw_ok = None
-        for op, o in zip(case, out):
-            t, r = op.split(), o.split(" | ")[0].split()
-            if o.startswith("rej"):
-                continue
-            if t[0] == "feedraw":
-                ok = r[1] == "true"
-                if not ok and (int(r[2]) or r[4] != "-"): return "rejected frame produced output: feedraw"
-                if ok:
-                    b = bytes.fromhex(r[4])
-                    pes = b if not b or b[0] != 0x47 else b"".join(b[k + 4:k + 188] for k in range(0, len(b), 188))
-                    if len(pes) % 184 or pes[:4] != b"\x00\x00\x01\xbd" or (pes[4] << 8 | pes[5]) + 6 != len(pes):
-                        return "raw frame: PES framing"
-                    if self.du_walk(pes[46:]) is None: return "raw frame: data units do not fill the packet exactly"
-                prev_raw_ok = ok
-            elif t[0] == "feed" and prev_raw_ok is not None:
-                if r[1] != "true": return "multiplexer unusable after a %s raw frame: feed of one Teletext line fails" % ("accepted" if prev_raw_ok else "rejected")
-        return None
 
 
 _orig_load_known = verif.load_known
